@@ -106,6 +106,14 @@ var c14Writes = []c14Write{
 		return c14Seq(func() error { return x.VDelete("ix", "p1") },
 			func() error { return x.VAdd("ix", "p1", []float32{9, 9}, map[string]any{"seq": 5.0}) })
 	}},
+	// a node is replaced and linked again with an inverse relation: when all three records are
+	// both in the captured state and in the log that is replayed over it, replay has to take BOTH
+	// directions of the new link out of the cascade it finishes for the VDEL record
+	{"VDelete+VAdd+VLink(inverse)", nil, func(x *vexec.Exec) error {
+		return c14Seq(func() error { return x.VDelete("ix", "p1") },
+			func() error { return x.VAdd("ix", "p1", []float32{8, 8}, map[string]any{"seq": 6.0}) },
+			func() error { return x.VLink("ix", "p0", "p1", "r", "ri", 2, map[string]any{"k": "v"}) })
+	}},
 	{"VSetMetadata+VSetMetadata", nil, func(x *vexec.Exec) error {
 		return c14Seq(func() error { return x.VSetMetadata("ix", "p0", map[string]any{"seq": 9.0, "a": "x"}) },
 			func() error { return x.VSetMetadata("ix", "p0", map[string]any{"seq": 10.0}) })
@@ -413,7 +421,7 @@ type c14Sched struct {
 // subsets of the write table for the reduced products (by name)
 var c14CompressWrites = []string{"KVSet", "VAdd", "VAddBatch", "VDelete", "VSetMetadata", "VReinforce", "VLink", "VUpdateIndexConfig", "VUpdateAutoLinks", "VDelete(cascade)", "VDelete+VAdd", "VEvolve"}
 var c14DropWrites = []string{"KVSet", "VAdd", "VDelete", "VLink", "VCreate", "VDeleteIndex"}
-var c14OverlapWrites = []string{"KVSet", "VAdd", "VDelete", "VLink(evolve)+VUnlink+VLink", "VImport+VImportCommit"}
+var c14OverlapWrites = []string{"KVSet", "VAdd", "VDelete", "VLink(evolve)+VUnlink+VLink", "VImport+VImportCommit", "VDelete+VAdd+VLink(inverse)"}
 var c14CloseWrites = []string{"KVSet", "KVDelete", "VAdd", "VAddBatch", "VDelete", "VSetMetadata", "VLink", "VUnlink+VLink+VUnlink"}
 
 // c14CompressLoses: the rows that fail while finding D-C14-2 is open (generator guard): the
